@@ -22,6 +22,7 @@ import (
 	"math/rand"
 	"os"
 	"path/filepath"
+	"reflect"
 	"sort"
 	"strings"
 	"testing"
@@ -413,6 +414,35 @@ func toJ(s spec) jspec {
 	return j
 }
 
+// exemptNonces: event nonces for bodies that differ only in the exempted field
+var exemptNonces = []uint64{2, 1_000_000, 1 << 32, 1 << 63, ^uint64(0)}
+
+// allDiff: every struct field (exempted ones included) on which two bodies of one type differ.
+func allDiff(a, b types.EthereumClaim) []string {
+	if typeName(a) != typeName(b) {
+		return []string{"<type>"}
+	}
+	fa, fb := fieldsOf(a), fieldsOf(b)
+	var out []string
+	for i := range fa {
+		switch fa[i].Kind {
+		case "meta":
+			if fmt.Sprint(reflect.ValueOf(a).Elem().Field(i).Interface()) != fmt.Sprint(reflect.ValueOf(b).Elem().Field(i).Interface()) {
+				out = append(out, fa[i].Name)
+			}
+		case "amt":
+			if (fa[i].Amt == nil) != (fb[i].Amt == nil) || (fa[i].Amt != nil && fa[i].Amt.Cmp(fb[i].Amt) != 0) {
+				out = append(out, fa[i].Name)
+			}
+		default:
+			if fa[i].Num != fb[i].Num || fa[i].Str != fb[i].Str {
+				out = append(out, fa[i].Name)
+			}
+		}
+	}
+	return out
+}
+
 // ---- oracle ----
 
 func violationID(stored, voted types.EthereumClaim) (string, string) {
@@ -520,6 +550,13 @@ func TestCorr(t *testing.T) {
 				d, typeName(c1), typeName(c2), tag, envE.applyDigest(c1), envE.applyDigest(c2)), replay)
 		}
 		d1, d2 := envE.applyDigest(c1), envE.applyDigest(c2)
+		if bytes.Equal(k1, k2) && d1 != d2 {
+			// whatever the field tables say: applying the two bodies (handler and end-blocker tally with a full set of
+			// votes) must leave the chain in the same state when they share an attestation key
+			dd := allDiff(c1, c2)
+			run.Violate("C11:same-key-different-real-effect:"+typeName(c1)+"."+strings.Join(dd, "+"), fmt.Sprintf("two %s claims with the same attestation key that differ only in %v have different effects when applied: %q vs %q",
+				typeName(c1), dd, d1, d2), replay)
+		}
 		run.Count("effect", fmt.Sprintf("%s:real-%v", kind, d1 == d2))
 		run.Case(fmt.Sprintf("C11.CEffect %s %s %s", coqClaim(c1), coqClaim(c2), emit.Bool(d1 == d2)), len(d) > 0, nil)
 	}
@@ -686,6 +723,20 @@ func TestCorr(t *testing.T) {
 			}
 		}
 	}
+	// bodies differing ONLY in a field the hash exempts (event nonce incl. huge values, orchestrator), each run
+	for tt := 0; tt < 3; tt++ {
+		for _, en := range exemptNonces {
+			a := honestSpec(r, tt, 1)
+			a.BatchNonce = 1
+			b := a.clone()
+			b.EventNonce = en
+			if b.EventNonce == a.EventNonce {
+				b.EventNonce++
+			}
+			b.Orch = 4
+			doPair(build(a), build(b), fmt.Sprintf("exempt-only:EventNonce=%d", en), map[string]any{"kind": "pair", "a": toJ(a), "b": toJ(b)})
+		}
+	}
 	// amount aliases: every alias kind for both amount-carrying types, each run
 	for _, tt := range []int{tDeposit, tSale} {
 		for _, kind := range aliasKinds {
@@ -842,6 +893,15 @@ func TestCorr(t *testing.T) {
 			attacker.Orch, attacker.Amount = 4, x
 			histOf("amount-alias:"+kind, victim, attacker)
 		}
+	}
+	for tt := 0; tt < 3; tt++ { // the first submitter's body differs ONLY in the event nonce
+		victim := honestSpec(r, tt, 1)
+		attacker := victim.clone()
+		attacker.Orch, attacker.EventNonce = 4, exemptNonces[r.Intn(len(exemptNonces))]
+		if attacker.EventNonce == victim.EventNonce {
+			attacker.EventNonce++
+		}
+		histOf("exempt-only:EventNonce", victim, attacker)
 	}
 	for vt := 0; vt < 3; vt++ {
 		for to := 0; to < 3; to++ {
